@@ -46,6 +46,12 @@ func freshRoot(v ssa.Value) bool {
 		case *ssa.FieldAddr:
 			v = x.X
 		case *ssa.IndexAddr:
+			// element of a slice held in a field of an object under construction
+			if ld, ok := x.X.(*ssa.UnOp); ok && ld.Op == token.MUL {
+				if fa, ok := ld.X.(*ssa.FieldAddr); ok {
+					return freshRoot(fa)
+				}
+			}
 			v = x.X
 		case *ssa.UnOp:
 			if x.Op != token.MUL {
@@ -841,4 +847,235 @@ func (s *slotAlg) memStable(fn *ssa.Function, atoms map[string]bool, site ssa.In
 		}
 	}
 	return "", true
+}
+
+// ---------------------------------------------------------------------------
+// guard evaluation under facts about two arguments (C10-D1 arg-guard)
+
+// argFacts fixes what is known about the key (kind 1) and delay (kind 2)
+// arguments: key == nil, delay <= 0 (nil pointer = unknown).
+type argFacts struct {
+	kind                func(v ssa.Value) int
+	keyNil, delayNonPos *bool
+}
+
+const (
+	tvUnknown = iota
+	tvTrue
+	tvFalse
+)
+
+func tvOf(b bool) int {
+	if b {
+		return tvTrue
+	}
+	return tvFalse
+}
+
+func tvNot(t int) int {
+	switch t {
+	case tvTrue:
+		return tvFalse
+	case tvFalse:
+		return tvTrue
+	}
+	return tvUnknown
+}
+
+// evalCmp evaluates a comparison of the key with nil or of the delay with 0/1.
+func (fa argFacts) evalCmp(b *ssa.BinOp) int {
+	x, y, op := b.X, b.Y, b.Op
+	if fa.kind(y) != 0 && fa.kind(x) == 0 {
+		x, y, op = y, x, f10FlipCmp(op)
+	}
+	switch fa.kind(x) {
+	case 1:
+		if !core.IsNil(y) || fa.keyNil == nil {
+			return tvUnknown
+		}
+		switch op {
+		case token.EQL:
+			return tvOf(*fa.keyNil)
+		case token.NEQ:
+			return tvOf(!*fa.keyNil)
+		}
+	case 2:
+		k, ok := core.ConstInt(y)
+		if !ok || fa.delayNonPos == nil {
+			return tvUnknown
+		}
+		// integer normalisation: x < 1 ≡ x <= 0, x >= 1 ≡ x > 0
+		if k == 1 && op == token.LSS {
+			k, op = 0, token.LEQ
+		} else if k == 1 && op == token.GEQ {
+			k, op = 0, token.GTR
+		}
+		if k != 0 {
+			return tvUnknown
+		}
+		np := *fa.delayNonPos
+		switch op {
+		case token.LEQ:
+			return tvOf(np)
+		case token.GTR:
+			return tvOf(!np)
+		case token.LSS, token.EQL: // delay > 0 refutes both; delay <= 0 decides neither
+			if !np {
+				return tvFalse
+			}
+		case token.GEQ, token.NEQ:
+			if !np {
+				return tvTrue
+			}
+		}
+	}
+	return tvUnknown
+}
+
+func f10FlipCmp(op token.Token) token.Token {
+	switch op {
+	case token.LSS:
+		return token.GTR
+	case token.GTR:
+		return token.LSS
+	case token.LEQ:
+		return token.GEQ
+	case token.GEQ:
+		return token.LEQ
+	}
+	return op
+}
+
+// evalBool evaluates boolean v at the end of block blk reached from pred.
+func (g *pkgGraph) evalBool(v ssa.Value, blk, pred *ssa.BasicBlock, fa argFacts, depth int) int {
+	if depth > 6 {
+		return tvUnknown
+	}
+	switch x := v.(type) {
+	case *ssa.Const:
+		if x.Value != nil && (x.Value.String() == "true" || x.Value.String() == "false") {
+			return tvOf(x.Value.String() == "true")
+		}
+	case *ssa.UnOp:
+		if x.Op == token.NOT {
+			return tvNot(g.evalBool(x.X, blk, pred, fa, depth+1))
+		}
+	case *ssa.BinOp:
+		return fa.evalCmp(x)
+	case *ssa.Phi:
+		if x.Block() != blk || pred == nil {
+			return tvUnknown
+		}
+		idx, n := -1, 0
+		for i, q := range blk.Preds {
+			if q == pred {
+				idx, n = i, n+1
+			}
+		}
+		if n != 1 {
+			return tvUnknown
+		}
+		return g.evalBool(x.Edges[idx], pred, nil, fa, depth+1)
+	case *ssa.Call:
+		callee := x.Call.StaticCallee()
+		if callee == nil || !g.inPkg[callee] || callee.Signature.Results().Len() != 1 {
+			return tvUnknown
+		}
+		// facts about the callee's parameters
+		kinds := map[*ssa.Parameter]int{}
+		for i, pa := range callee.Params {
+			if i < len(x.Call.Args) {
+				kinds[pa] = fa.kind(x.Call.Args[i])
+			}
+		}
+		sub := argFacts{keyNil: fa.keyNil, delayNonPos: fa.delayNonPos, kind: func(v ssa.Value) int {
+			pa, ok := core.Strip(core.Forward(core.Strip(v))).(*ssa.Parameter)
+			if !ok {
+				return 0
+			}
+			return kinds[pa]
+		}}
+		res := map[int]bool{}
+		g.reachUnderD(callee, sub, depth+1, func(in ssa.Instruction, blk, pred *ssa.BasicBlock) bool {
+			if ret, ok := in.(*ssa.Return); ok && len(ret.Results) == 1 {
+				res[g.evalBool(ret.Results[0], blk, pred, sub, depth+1)] = true
+			}
+			return false
+		})
+		if len(res) == 1 {
+			for k := range res {
+				return k
+			}
+		}
+	}
+	return tvUnknown
+}
+
+// reachUnder walks the paths of fn from its entry that are feasible under the
+// facts; visit is called for every instruction on them and stops a path by
+// returning true.
+func (g *pkgGraph) reachUnder(fn *ssa.Function, fa argFacts, visit func(in ssa.Instruction) bool) {
+	g.reachUnderD(fn, fa, 0, func(in ssa.Instruction, _, _ *ssa.BasicBlock) bool { return visit(in) })
+}
+
+func (g *pkgGraph) reachUnderD(fn *ssa.Function, fa argFacts, depth int, visit func(in ssa.Instruction, blk, pred *ssa.BasicBlock) bool) {
+	type st struct{ b, pred *ssa.BasicBlock }
+	seen := map[st]bool{}
+	work := []st{{fn.Blocks[0], nil}}
+	for len(work) > 0 {
+		s := work[len(work)-1]
+		work = work[:len(work)-1]
+		if seen[s] {
+			continue
+		}
+		seen[s] = true
+		stopped := false
+		for _, in := range s.b.Instrs {
+			if visit(in, s.b, s.pred) {
+				stopped = true
+				break
+			}
+		}
+		if stopped {
+			continue
+		}
+		if iff, ok := s.b.Instrs[len(s.b.Instrs)-1].(*ssa.If); ok {
+			switch g.evalBool(iff.Cond, s.b, s.pred, fa, depth) {
+			case tvTrue:
+				work = append(work, st{s.b.Succs[0], s.b})
+				continue
+			case tvFalse:
+				work = append(work, st{s.b.Succs[1], s.b})
+				continue
+			}
+		}
+		for _, n := range s.b.Succs {
+			work = append(work, st{n, s.b})
+		}
+	}
+}
+
+// hasEffects: f, or a function it reaches synchronously inside the package,
+// sends, selects, starts a goroutine, or stores to / updates shared memory.
+func (g *pkgGraph) hasEffects(f *ssa.Function) bool {
+	for _, h := range g.reachableSync(f) {
+		for _, b := range h.Blocks {
+			for _, in := range b.Instrs {
+				switch x := in.(type) {
+				case *ssa.Select, *ssa.Send, *ssa.Go, *ssa.MapUpdate:
+					return true
+				case *ssa.Store:
+					if !freshRoot(x.Addr) {
+						return true
+					}
+				}
+			}
+		}
+		for _, e := range g.out[h] {
+			if e.kind == ekAsync {
+				return true
+			}
+		}
+	}
+	return false
 }
